@@ -313,6 +313,11 @@ class World:
                 elif got == old:
                     ctx.violation("C03", "stale_slot", f,
                                   "file %r: slot %r still shows %r, expected %r" % (path, seg["slot"], got, want))
+                    if seg["slot"] == "{pep440_version}":
+                        # C15's own words: the {pep440_version} text equals the PEP440 value `show` prints (now: the new one)
+                        ctx.violation("C15", "pep440_slot_not_equal", dict(f, stale=True),
+                                      "file %r: {pep440_version} slot still shows %r after the update to %r (PEP 440 form %r)" % (
+                                          path, got, new_text, want))
                 else:
                     ctx.violation("C03", "wrong_slot", f,
                                   "file %r: slot %r shows %r, expected %r (was %r)" % (path, seg["slot"], got, want, old))
